@@ -1,5 +1,6 @@
 import Yaep.Driver.Judge
 import Yaep.Model.FreeTree
+import Yaep.Model.ApiFault
 /-!
 # `yaep_model`: the judge as a filter.  stdin: the harness output (echoed case lines +
 observation lines); stdout: verdict and statistics lines.
@@ -45,14 +46,15 @@ def processCase (cfg : ParseCfg) (c : Case) : Array String := Id.run do
       | "def" | "descr" =>
         let obs := (o.first "def").getD []
         out := out.v cid o.n "C17" "K" (kvInt obs "rc" == 1 && kvInt obs "code" == 1) s!"definition under allocation failure: rc={kvInt obs "rc"} code={kvInt obs "code"}"
-        hs := setH hs h (st.define (.error 1)).1
+        -- the API model under a failing allocation (Model/ApiFault.lean, theorems in Props/C17.lean)
+        hs := setH hs h (((objStepFault st (.define h (.error 1))).map (·.1)).getD st)
         poisoned := h :: poisoned
       | "parse" =>
         let obs := (o.first "parse").getD []
         out := out.v cid o.n "C17" "K" (kvInt obs "rc" == 1 && kvInt obs "code" == 1 && (kv obs "root") == some "null")
           s!"parse under allocation failure: rc={kvInt obs "rc"} code={kvInt obs "code"} root={kv obs "root"}"
         -- the object stays defined: later calls are judged like any other (C14)
-        hs := setH hs h (st.record 1)
+        hs := setH hs h (((objStepFault st (.parse h false false [])).map (·.1)).getD st)
       | "free" =>
         out := out.v cid o.n "C17" "K" false "allocation during yaep_free_grammar"
       | _ => out := out.s cid s!"op {o.n} allocation failure in {o.cmd}"
